@@ -13,7 +13,7 @@ def decode(string):
   return unsafe_decode(string)
 
 def validate_encoded(string):
-  if not re.match(r"^[!-)+-<>-~][!-~]*[+-](,[!-)+-<>-~][!-~]*[+-])*$", string):
+  if not re.match(r"^[!-)+-<>-~][!-~]*[+-](,[!-)+-<>-~][!-~]*[+-])*\Z", string):
     raise gfapy.FormatError(
       "{} is not a valid list of GFA1 segment names ".format(repr(string))+
       "and orientations\n"+
@@ -26,7 +26,7 @@ def validate_decoded(iterable):
   for elem in iterable:
     elem = gfapy.OrientedLine(elem)
     elem.validate()
-    if not re.match(r"^[!-)+-<>-~][!-~]*$", elem.name):
+    if not re.match(r"^[!-)+-<>-~][!-~]*\Z", elem.name):
       raise gfapy.FormatError(
         "{} is not a valid GFA1 segment name\n".format(elem.name)+
         "(it does not match [!-)+-<>-~][!-~]*)")
